@@ -30,7 +30,9 @@ TRUSTED = [
     "floats too large for 'f' are not modelled",
 ]
 NOT_MODELLED = [
-    "entities lump text (write_ent_data/_lmp_read_ents over the tokenizer): round trip on the implementation only",
+    "entities lump: executable model (Model/C11Ent.lean: entWrite / entRead over the shared tokenizer model) byte-compared with the written lump "
+    "and compared with _lmp_read_ents on well-formed and random malformed texts; no round-trip theorem beyond C02_inverse (per quoted string); "
+    "Output.parse / as_keyvalue field formatting (vmf.py) is not modelled",
     "faces/orig_faces/hdr_faces, primitives, brushes+brushsides, nodes, leafs (+leaffaces/leafbrushes), texinfo/texdata, bmodels+physcollide, "
     "overlays, surfedges/edges, water leaf info, detail props: struct layer (format equality reader=writer per layout, arity and range "
     "behaviour) is modelled and proved; the field-order glue and cross-lump index rebuilding are covered by the round trip on the "
@@ -590,12 +592,111 @@ def _corr_lumps(ctx, drv):
             ctx.disagree(dict(case, lump=what), str(want)[:300], str(rep)[:300], 'lump bytes / model encoder: ' + what)
 
 
+
+# --------------------------------------------------------------------------- entity lump text
+
+def _m(s):
+    """str -> code points for the model (lone surrogates U+DC80.. are not Lean Chars: use U+F780..)"""
+    return [(ord(c) - 0xDC00 + 0xF700) if 0xDC80 <= ord(c) <= 0xDCFF else ord(c) for c in s]
+
+
+def _um(cps):
+    return ''.join(chr(c - 0xF700 + 0xDC00) if 0xF780 <= c <= 0xF7FF else chr(c) for c in cps)
+
+
+def _ent_lines(ent):
+    lines = [[_m(k), _m(v), False] for k, v in ent.items()]
+    for o in ent.outputs:
+        from srctools.tokenizer import escape_text
+        t = o.as_keyvalue()                      # '"K" "V"\n' — formatting of the fields is vmf.py's (not modelled)
+        k = escape_text(o.exp_out())
+        assert t.startswith('"' + k + '" "') and t.endswith('"\n')
+        v = t[len(k) + 4:-2]
+        lines.append([_m(k), _m(v), True])
+    return lines
+
+
+_ENT_PIECES = ['{', '}', '\n', ' ', '"k" "v"', '"classname" "worldspawn"', '"classname" "info_x"', '\x00', '"a" "1,2,3"',
+               '"o" "t\x1bi\x1bp\x1b0\x1b-1"', '"OnX" "t,i,p,0.5,-1"', '"x"', 'bare', '"q\\"" "w\\\\\n"', '{\n', '}\n', '// c\n', '"unterminated']
+
+
+def _corr_ents(ctx, drv):
+    from srctools.bsp import BSP, BSP_LUMPS
+    rng = ctx.rng
+    reqs, meta = [], []
+    for res in _worlds(ctx):
+        if res['save_exc'] or 'path' not in res:
+            continue
+        raw = BSP(res['path'])
+        data = raw.lumps[BSP_LUMPS.ENTITIES].data
+        text = data.decode('ascii', 'surrogateescape')
+        vmf = raw.ents
+        ents = [vmf.spawn] + list(vmf.entities)
+        reqs.append({'op': 'ent_write', 'ents': [_ent_lines(e) for e in ents]})
+        meta.append(('write', res['case'], {'r': _m(text)}))
+        want = [[[_m(k), _m(v)] for k, v in e.items()] for e in ents]
+        reqs.append({'op': 'ent_read', 's': _m(text)})
+        meta.append(('read', res['case'], (want, [len(e.outputs) for e in ents])))
+        ctx.count('ents:lump')
+    # the reader's control flow on arbitrary (mostly malformed) lump texts
+    tmp = ctx._c11_tmp
+    dummy = W.open_config('v20', tmp, 'entdummy')
+    for _ in range(ctx.budget(1500, 12000)):
+        if rng.random() < 0.5:
+            body = ''.join(rng.choice(_ENT_PIECES) for _ in range(rng.randrange(0, 9)))
+            text = '{\n"classname" "worldspawn"\n}\n' + body
+        else:
+            text = ''.join(rng.choice(_ENT_PIECES) for _ in range(rng.randrange(0, 9)))
+        try:
+            dummy.out_comma_sep = None
+            vmf = dummy._lmp_read_ents(text.encode('ascii', 'surrogateescape'))
+            ents = [vmf.spawn] + list(vmf.entities)
+            # an entity lump without any "{" leaves the default worldspawn: the model returns no entity at all
+            impl = ([[[_m(k), _m(v)] for k, v in e.items()] for e in ents], [len(e.outputs) for e in ents])
+        except Exception as e:
+            impl = 'error'
+        reqs.append({'op': 'ent_read', 's': _m(text)})
+        meta.append(('read-arbitrary', {'text': text}, impl))
+        ctx.case({'ent_text': text}, nontrivial=True, sample_every=499)
+        ctx.count('ents:arbitrary-text' + (':error' if impl == 'error' else ''))
+    for (kind, case, want), rep in zip(meta, drv.batch(reqs)):
+        ctx.traces_vs_impl += 1
+        if kind == 'write':
+            if rep != want:
+                ctx.disagree(dict(case, lump='entities'), _um(want['r'])[:300], _um(rep.get('r', []))[:300] if 'r' in rep else rep, 'entity lump text / model entWrite')
+            continue
+        if want == 'error':
+            if 'err' not in rep:
+                ctx.disagree(case, 'exception', rep, '_lmp_read_ents / model entRead (error expected)')
+            continue
+        if 'err' in rep:
+            ctx.disagree(case, str(want)[:300], rep, '_lmp_read_ents / model entRead')
+            continue
+        kvs, nouts = want
+        m_ents = rep['ents']
+        m_kvs = [[[l[0], l[1]] for l in e if l[2] == 0] for e in m_ents]
+        m_out = [sum(1 for l in e if l[2] != 0) for e in m_ents]
+        amb = any(l[2] == 2 for e in m_ents for l in e)
+        def merged(e):      # Entity keys are case-insensitive: a repeated key overwrites the value, keeps the first spelling/position
+            out = {}
+            for k, v in e:
+                kk = _um(k).casefold()
+                out[kk] = [out[kk][0] if kk in out else k, v]
+            return list(out.values())
+        if kind == 'read-arbitrary' and amb:
+            continue
+        m_kvs = [merged(e) for e in m_kvs]
+        if m_kvs != kvs or (not amb and m_out != nouts):
+            ctx.disagree(case, str((kvs, nouts))[:300], str((m_kvs, m_out))[:300], '_lmp_read_ents / model entRead')
+
+
 def correspond(ctx, drivers):
     drv = drivers['drv_c11']
     _corr_struct(ctx, drv)
     _corr_rle(ctx, drv)
     _corr_finders(ctx, drv)
     _corr_lumps(ctx, drv)
+    _corr_ents(ctx, drv)
 
 
 # =============================================================================== probes
